@@ -145,6 +145,56 @@ def run(ctx):
         for n in bad[:1]:
             res.add(Finding('C10', 'C10.c', 'R-SENTINEL', fn.file, fn.qualname, n.lineno, norm(n.test) if hasattr(n, 'test') else norm(n),
                             '`limit` is tested by truthiness: limit=0 means "no limit" here but "nothing" in the sibling cassettes'))
+    # ---------------- the lookup helper reads the properties when the lookup is made (they are plain mutable objects)
+    lk = None
+    for m_ in repo.modules.values():
+        if 'find_matching_recording_ids' in m_.functions:
+            lk = m_.functions['find_matching_recording_ids']
+    props = repo.find_class('RecordingLookupProperties')
+    if lk is None or props is None:
+        raise AnalysisError('anchor-lost lookup helper / RecordingLookupProperties')
+    pp = [p for p in lk.params if 'propert' in p]
+    if not pp:
+        raise AnalysisError('anchor-lost role=properties parameter of the lookup helper')
+    reads = {n.attr for n in ast.walk(lk.node) if isinstance(n, ast.Attribute) and isinstance(n.value, ast.Name) and n.value.id == pp[0]}
+    init_p = props.lookup('__init__')
+    derived = {}
+    for n in ast.walk(init_p.node):
+        if isinstance(n, ast.Assign):
+            for t in n.targets:
+                if isinstance(t, ast.Attribute) and isinstance(t.value, ast.Name) and t.value.id == 'self' and \
+                        not (isinstance(n.value, ast.Name) and n.value.id in init_p.params):
+                    derived[t.attr] = n
+        if isinstance(n, ast.Assign) and any(isinstance(t, ast.Subscript) and isinstance(t.value, ast.Attribute) and isinstance(t.value.value, ast.Name) and
+                                             t.value.value.id == 'self' for t in n.targets):
+            derived[[t for t in n.targets if isinstance(t, ast.Subscript)][0].value.attr] = n
+    frozen = sorted(reads & set(derived))
+    okr = {'metadata', 'skip_incomplete'} <= reads and not frozen
+    cb.instance('lookup helper reads metadata and skip_incomplete of the properties at lookup time (reads %s)' % sorted(reads), lk.qualname, okr)
+    cb.evaluations += 1
+    if not okr:
+        res.add(Finding('C10', 'C10.b', 'R-SIBLING', lk.file, lk.qualname, lk.node.lineno, 'filter source of the lookup helper',
+                        'the filter handed to the cassette is not built from the properties\' `metadata` and `skip_incomplete` when the lookup is '
+                        'made (%s): changing the properties after construction has no effect on what is listed' % (
+                            'it reads %s, computed once in the constructor' % frozen if frozen else 'reads only %s' % sorted(reads))))
+    # the limit is an upper bound: it reaches the result only through forms that cope with "more than there is"
+    lib_partial = {'sample': 'raises ValueError when the limit exceeds the number of matches', 'choices': 'returns exactly `limit` ids, repeating matches',
+                   'range': 'indexes past the matches', 'xrange': 'indexes past the matches', 'nlargest': None, 'nsmallest': None}
+    for c, fn in ((mem, mem.lookup('iter_recording_ids')), (fil, fil.lookup('iter_recording_ids'))):
+        lim = [p for p in fn.params if 'limit' in p]
+        badl = []
+        for n in ast.walk(fn.node):
+            if isinstance(n, ast.Call) and any(isinstance(x, ast.Name) and x.id in lim for a in list(n.args) + [k.value for k in n.keywords] for x in ast.walk(a)):
+                last = norm(n.func).split('.')[-1]
+                if lib_partial.get(last):
+                    badl.append((n, last, lib_partial[last]))
+            if isinstance(n, ast.Subscript) and isinstance(n.slice, ast.Name) and n.slice.id in lim:
+                badl.append((n, 'index', 'indexes the matches with the limit'))
+        cc.instance('%s: the limit is applied as an upper bound (slice / counter), never as an exact count' % fn.qualname, fn.qualname, not badl)
+        cc.evaluations += 1
+        for n, last, why in badl[:1]:
+            res.add(Finding('C10', 'C10.c', 'R-SENTINEL', fn.file, fn.qualname, n.lineno, norm(n)[:100],
+                            'the limit is handed to `%s`, which %s: a lookup with more room than matches must return all matches' % (last, why)))
     # ---------------- only saved recordings are listed: a failing save must not leave a listable file behind
     sv_f = fil.lookup('_save_recording')
     enc_f = [n for n in ast.walk(sv_f.node) if isinstance(n, ast.Call) and isinstance(n.func, ast.Name) and n.func.id == 'encode']
